@@ -53,7 +53,25 @@ def run(ctx: Ctx) -> None:
     analyze_vs_lift(ctx, rows, [c for c in base + pre if c.status == "ok" and not c.analyze_exc and not c.lift_exc])
     frames(ctx, rows, base, rs)
     rust_formulas(ctx, py, rs, rows, base)
+    # the same comparisons at an address whose instruction straddles a 64 KiB page boundary (page rules, wrap-around)
+    from ..isa_sweep import Sweeper
+    sw = Sweeper()
+    edge = []
+    for op, r in sorted(rows.items()):
+        if r.cls in ("JP_Abs", "JP_Rel", "CALL", "RET", "RETF", "RETI"):
+            for sel in ([None] if not any(c.opcode == op and c.selector is not None for c in base) else [c.selector for c in base if c.opcode == op and c.status == "ok"][:4]):
+                c = sw.run_case(None, op, sel, ("analyze", "lift"), addr=EDGE_ADDR)
+                if c.status == "ok" and not c.analyze_exc and not c.lift_exc:
+                    edge.append(c)
+    analyze_vs_lift(ctx, rows, edge, addr=EDGE_ADDR, tag="@page-edge")
+    rust_formulas(ctx, py, rs, rows, edge, addr=EDGE_ADDR, tag="@page-edge")
     pc_update(ctx, py)
+    from ..memo import memo_findings
+    fn = py.func(isa.ARCH_PY, "SC62015.get_instruction_info")
+    ctx.file_used(REPO / isa.ARCH_PY)
+    for ln, what in memo_findings(py.module(isa.ARCH_PY), fn, ("data", "addr")):
+        ctx.violation("C05.6/memo", key_of(isa.ARCH_PY, "SC62015.get_instruction_info", "branch info remembered across calls"), what + " - branch targets depend on the address", f"{isa.ARCH_PY}:{ln}")
+    ctx.instance("C05.6/memo", "get_instruction_info computes branch info from (data, addr) of this call only", 1, 1)
 
 
 def _has_cond(il: list, idx: int) -> Term | None:
@@ -64,7 +82,11 @@ def _has_cond(il: list, idx: int) -> Term | None:
     return None
 
 
-def analyze_vs_lift(ctx: Ctx, rows: dict, cases: list) -> None:
+EDGE_ADDR = 0x2FFFE
+
+
+def analyze_vs_lift(ctx: Ctx, rows: dict, cases: list, addr: int = ADDR, tag: str = "") -> None:
+    ADDR = addr  # noqa: N806 - shadows the module constant for the comparisons below
     n = 0
     groups: dict[tuple, list] = collections.defaultdict(list)
     ctrl_ops = set()
@@ -163,6 +185,9 @@ def analyze_vs_lift(ctx: Ctx, rows: dict, cases: list) -> None:
         stable = what.split(":")[0] if rule.endswith("/target") else ("indirect jump reported with a constant target" if rule.endswith("const-target") else what)
         ctx.violation(rule, key_of(isa.INSTR_PY, f"opcode 0x{op:02X} {r.cls}", stable),
                       f"opcode 0x{op:02X} ({r.name}): {what} ({len(cs)} cases)", f"{isa.OPTABLE}:{r.ln}")
+    if tag:
+        ctx.instance("C05.1-2/analyze-vs-lift" + tag, f"control-flow encodings re-run at address {addr:#x} (instruction straddles a page boundary)", n, 20)
+        return
     ctx.instance("C05.1-2/analyze-vs-lift", "accepted cases: branch kinds/targets vs IL transfers (incl. prefixed forms)", n, 7000)
     ctx.instance("C05.2/control-rows", "opcodes whose IL transfers control", len(ctrl_ops), 24)
     for c in cases:
@@ -224,10 +249,36 @@ def frames(ctx: Ctx, rows: dict, base: list, rs: RustProgram) -> None:
         widths.append(it.ev(pb[0]["init"], env))
     if widths != [16, 24]:
         ctx.violation("C05.3/frame", "rust Call push widths", f"Rust CALL pushes {widths} bits for 16/20-bit targets", f"{rs.file_for(isa.EVAL_RS)}:{arm['ln']}")
-    ctx.instance("C05.3/frames", "CALL/RET 2 bytes, CALLF/RETF 3 bytes, RET merges the current page; Rust arm widths", n, 7)
+    # software interrupt frame: IR pushes PC(3), F(1), IMR(1) as they were *before* the instruction; RETI pops them back in reverse
+    ir = next((c for c in base if rows[c.opcode].cls == "IR" and c.status == "ok"), None)
+    reti = next((c for c in base if rows[c.opcode].cls == "RETI" and c.status == "ok"), None)
+    if ir is None or reti is None:
+        raise AnalysisError("IR / RETI rows not found")
+    pushes = [(i, st) for i, st in enumerate(ir.il_terms) if isinstance(st, Term) and st.ctor == "push"]
+    n += 1
+    if [st.args[0] for _i, st in pushes] != [3, 1, 1] or pops(reti.il_terms) != [1, 1, 3]:
+        ctx.violation("C05.3/irq-frame", "IR/RETI widths", f"IR pushes {[st.args[0] for _i, st in pushes]} bytes, RETI pops {pops(reti.il_terms)}; expected 3,1,1 and 1,1,3", isa.INSTR_PY)
+    for i, st in pushes:
+        n += 1
+        reads = {repr(t.args[1]) for t in ilfacts.walk(st.args[1]) if t.ctor == "load"} | {repr(t.args[1]) for t in ilfacts.walk(st.args[1]) if t.ctor == "reg"} | {repr(t.args[0]) for t in ilfacts.walk(st.args[1]) if t.ctor == "flag"}
+        for j, prev in enumerate(ir.il_terms[:i]):
+            if not isinstance(prev, Term):
+                continue
+            wrote = repr(prev.args[1]) if prev.ctor == "store" else repr(prev.args[1]) if prev.ctor == "set_reg" else repr(prev.args[0]) if prev.ctor == "set_flag" else None
+            if wrote is not None and wrote in reads:
+                ctx.violation("C05.3/irq-frame", key_of(isa.INSTR_PY, "IR.lift", "pushed value read after it was overwritten"),
+                              f"IR pushes {_term(st.args[1])} after statement {j} of the same instruction already wrote {wrote}: the frame holds the new value, RETI cannot restore the old one", isa.INSTR_PY)
+    # correspondence of the saved items: third push loads the cell RETI's first pop stores to; second push packs C/Z, RETI's second pop unpacks them
+    n += 1
+    st_imr = [repr(t.args[1]) for st in reti.il_terms[:1] for t in [st] if isinstance(st, Term) and st.ctor == "store" and any(x.ctor == "pop" for x in ilfacts.walk(st.args[2]))]
+    ld_imr = [repr(t.args[1]) for t in ilfacts.walk(pushes[2][1].args[1]) if t.ctor == "load"] if len(pushes) == 3 else []
+    if not st_imr or st_imr != ld_imr:
+        ctx.violation("C05.3/irq-frame", "IR/RETI IMR slot", f"IR's third push reads {ld_imr}, RETI's first pop is stored to {st_imr}", isa.INSTR_PY)
+    ctx.instance("C05.3/frames", "CALL/RET 2 bytes, CALLF/RETF 3 bytes, RET merges the current page; Rust arm widths; IR/RETI frame order, widths and old-value capture", n, 12)
 
 
-def rust_formulas(ctx: Ctx, py: PyProgram, rs: RustProgram, rows: dict, base: list) -> None:
+def rust_formulas(ctx: Ctx, py: PyProgram, rs: RustProgram, rows: dict, base: list, addr: int = ADDR, tag: str = "") -> None:
+    ADDR = addr  # noqa: N806
     it = RsInterp(rs, isa.EVAL_RS)
     rel = rs.file_for(isa.EVAL_RS)
     by = {c.opcode: c for c in base if c.selector is None and c.status == "ok"}
@@ -292,7 +343,7 @@ def rust_formulas(ctx: Ctx, py: PyProgram, rs: RustProgram, rows: dict, base: li
     n += 1
     if ft != "pc_before.wrapping_add(decoded.lenasu32)&pc_mask" or tg != "fallthrough.wrapping_add_signed(imm)&pc_mask":
         ctx.violation("C05.4/rust-target", key_of(rel, "execute_with::JpRel", "target formula"), f"Rust JR computes fallthrough=`{ft}` target=`{tg}`; expected pc+len and fallthrough+-imm", f"{rel}:{arm['ln']}")
-    ctx.instance("C05.4/rust-formulas", "Rust JP/CALL/RET/JR target formulas folded with symbolic operands vs Python", n, 8)
+    ctx.instance("C05.4/rust-formulas" + tag, f"Rust JP/CALL/RET/JR target formulas folded with symbolic operands vs Python (instruction at {addr:#x})", n, 8)
 
 
 def pc_update(ctx: Ctx, py: PyProgram) -> None:
